@@ -91,3 +91,11 @@ Proof.
     2:{ rewrite app_length. pose proof (length_join_sigs (e :: sgs)). cbn [length] in *. lia. }
     cbn [app]. rewrite Hmk. destruct t; cbn in *; subst; reflexivity.
 Qed.
+
+(* UnpackDecode of what Pack wrote: the tuple with the report decoded *)
+Theorem json_unpack_decode_pack t j sn fr : ptuple_ok t j -> json_decode j = Some (Ok fr) ->
+  json_unpack_decode_bytes (json_pack_bytes t sn) = Some (Ok (pt_digest t, pt_seq t, fr, pt_sigs t)).
+Proof.
+  intros Hok Hd. unfold json_unpack_decode_bytes. rewrite (json_unpack_pack t j sn Hok).
+  destruct Hok as (_ & _ & _ & Hrep & Hj & _). rewrite Hrep, (json_report_parse_bytes j Hj), Hd. reflexivity.
+Qed.
